@@ -21,7 +21,7 @@ def infn(*parts):
 ALG = ("algorithms/mod.rs", "algorithms/myers.rs", "algorithms/lcs.rs", "algorithms/patience.rs", "algorithms/utils.rs",
        "algorithms/hook.rs")
 PIPE = ("algorithms/compact.rs", "algorithms/replace.rs", "algorithms/capture.rs", "common.rs", "types.rs")
-A_ALL = ["A1", "A2", "A3", "A4", "A5", "A7", "A8", "A9"]
+A_ALL = ["A1", "A2", "A3", "A4", "A5", "A7", "A8", "A9", "A10"]
 
 
 def a_rules(files, rules=A_ALL):
@@ -31,7 +31,7 @@ def a_rules(files, rules=A_ALL):
 PROPERTIES = {
     "C01": {
         "level": "other",
-        "rules": a_rules(ALG) + ["E1", "E2", "E3"],
+        "rules": a_rules(ALG) + ["E1", "E2", "E3", "B6"],
         "explanation": "Decided for all inputs: (1) every index handed to a diff hook by the three algorithms, every index "
                        "into a caller-ranged sequence and every range passed between the algorithm functions is an absolute "
                        "position of the right side and coordinate frame (A1-A5, A7: sort inference over the type-checked HIR "
@@ -42,7 +42,7 @@ PROPERTIES = {
     },
     "C02": {
         "level": "other",
-        "rules": ["F1", "F5", "B5", "G3", "G5", "E2", "E3"] + a_rules(PIPE + ALG),
+        "rules": ["F1", "F5", "B5", "G3", "G5", "G6", "F13", "F16", "E2", "E3"] + a_rules(PIPE + ALG),
         "explanation": "Decided: the capture pipeline is Compact(Replace(Capture)) and returns that hook's ops (F1); Compact "
                        "replays every buffered op once, in order, then finishes, Replace flushes in order (B5); every op "
                        "constructed or forwarded in compact/replace/capture/common/types takes old-side fields from old-"
@@ -52,7 +52,8 @@ PROPERTIES = {
     },
     "C03": {
         "level": "other",
-        "rules": [(r, infn("lcs::make_table", "lcs::diff_deadline")) for r in ("A2", "A3", "A5")],
+        "rules": [(r, infn("lcs::make_table", "lcs::diff_deadline")) for r in ("A2", "A3", "A5", "A10")] +
+                 ["G3", "F13", ("A7", infn("myers::find_middle_snake"))],
         "explanation": "Decided (one necessary condition only): the LCS table is built by reading the sequences through "
                        "positions derived from the requested ranges, and the walk reads the table with the same key slot "
                        "order it was written with (A2/A3/A5 restricted to lcs::make_table and lcs::diff_deadline).  "
@@ -113,7 +114,7 @@ PROPERTIES = {
     },
     "C09": {
         "level": "other",
-        "rules": ["E1", "B5", "F1", "G3"],
+        "rules": ["E1", "B5", "F1", "G3", "G6"],
         "explanation": "Decided: no algorithm emits an empty op (E1); Replace merges runs and emits delete/replace before "
                        "insert, flushing in order (B5); both adapters are in the capture pipeline, Compact outside Replace (F1)."
                        "  Alternation after compaction and 'insertion sits at its latest position' are NOT examined.",
@@ -121,7 +122,7 @@ PROPERTIES = {
     },
     "C10": {
         "level": "other",
-        "rules": ["F5", "B5", "G3", "G5", ("B4", infile("algorithms/compact.rs", "algorithms/capture.rs"))] +
+        "rules": ["F5", "B5", "G3", "G5", "G6", "F13", "F16", ("B4", infile("algorithms/compact.rs", "algorithms/capture.rs"))] +
                  a_rules(("algorithms/compact.rs", "algorithms/replace.rs", "types.rs")),
         "explanation": "Decided (structural parts only): no slot or side mix-up in any compaction arm or in Replace (A1-A5, A7), "
                        "helpers move start and length consistently (F5), Replace/Compact typestate (B5), Compact buffers exactly "
@@ -150,7 +151,7 @@ PROPERTIES = {
     },
     "C14": {
         "level": "other",
-        "rules": ["F2", "F6"] + a_rules(("text/mod.rs", "algorithms/utils.rs")),
+        "rules": ["F2", "F6", "F14"] + a_rules(("text/mod.rs", "algorithms/utils.rs")),
         "explanation": "Decided: tokenizer wiring, stored algorithm and newline flag, both size branches use self.algorithm "
                        "(F2); the integer-mapping branch pairs old_lookup with old_range and new_lookup with new_range, offsets "
                        "come from the respective range starts (A3/A4); the two IdentifyDistinct loops are identical up to "
@@ -160,7 +161,7 @@ PROPERTIES = {
     },
     "C15": {
         "level": "other",
-        "rules": a_rules(("algorithms/patience.rs", "algorithms/utils.rs")),
+        "rules": ["F15", "B6"] + a_rules(("algorithms/patience.rs", "algorithms/utils.rs", "algorithms/myers.rs")),
         "explanation": "Decided (one clause): anchors are translated from unique-list coordinates to original coordinates "
                        "only through original_index(), per side and per frame (A1-A5, A7 with frames U vs F0 in patience.rs "
                        "and unique()).  Maximality and the uniqueness filter are NOT examined.",
@@ -186,7 +187,7 @@ PROPERTIES = {
     },
     "C20": {
         "level": "other",
-        "rules": ["D2", "D3", "D4", "F7", "F6", "C5"],
+        "rules": ["D2", "D3", "D4", "F7", "F6", "F14", "C5"],
         "explanation": "Decided: the only order-sensitive hash iteration is sorted before use (D2); no clock/thread/env/"
                        "random/address dependence outside the deadline probe (D3, C5); items are only compared with ==/!= and "
                        "hashed, never ordered or formatted (D4: relabelling invariance); str and [u8] tokenizers classify "
